@@ -36,6 +36,10 @@ CLAIMS = {
    technique="symbolic execution of AdapterIndex look-up (merge mode; dictionary look-up with a symbolic key = ite over the keys + KeyError branch; N fallback through the real adapter and aligner) over symbolic reads, for enumerated concrete adapter sets; z3 decides genuineness, uniqueness and agreement with one-by-one search",
    text="Bounded model checking of the index: for each enumerated set of 2-3 anchored adapters (equal/different lengths, Hamming neighbours, prefixes of one another, the two examples of the property text scaled down), every order, both ends, indels on/off, k <= 1 (2 in thorough) and every read length up to longest+1, z3 decides for ALL reads over ACGTNacgn that a reported match lies inside the read with the exact error count within tolerance, that the only occurring adapter is reported, and that equal-length no-indel sets agree with one-by-one search whenever the nearest adapter is unique.",
    note=ALIGN_NOTE + " Adapter sets are enumerated (not symbolic). One-by-one search is represented by its specification (established by C01/C02/C09). The index itself is built by executing _make_index from source with the compiled edit_environment/hamming_sphere on concrete arguments."),
+ "C18": dict(engine="symx", design="3 C18",
+   technique="forking symbolic execution of parser.py and the adapter constructors from source over specification strings whose sequence part is symbolic (string models for partition/split/strip/re.split decided by z3), grammar enumerated; outcome compared with a structured reference from the user guide",
+   text="Bounded symbolic checking of the notation: 1356 specification templates (option letter x restriction syntax x name x parameter texts x linked combinations x ellipsis/brace/file forms x global settings) are each executed through the real make_adapters_from_one_specification with the sequence part a symbolic string (length 1..3 over ACGTUINacgn; XA / xA for the X rules); z3 decides on every path that class, normalised sequence, name, parameters (precedence adapter > file > global), absolute-error conversion (value / non-N bases with a symbolic N count), adapter-wildcard flag and required/optional defaults are the documented ones, and that the documented invalid combinations raise ValueError/KeyError (exit status 2 path).",
+   note="Trusted: symx' models of str methods (differentially validated against the real parser on 86 specifications incl. the repo's own test inputs each run); k-mer finders stubbed; the aligner constructor runs for real except where the rate depends on a symbolic N count. The -a linked default 'required iff the part carries a placement restriction' follows the code's notion of anchored. read_adapters_fasta is stubbed with two symbolic records."),
  "C09": dict(engine="crosshair", design="3 C09",
    technique="CrossHair (symbolic execution with z3, exhaustive 'Confirmed over all paths') on the real MultipleAdapters/AdapterCutter/LinkedAdapter classes with contract-stub adapters; symbolic scores, error counts, presence flags and match coordinates",
    text="Bounded symbolic checking of the selection rules on the real classes: best-of-3 (score, then errors, then first), rounds for --times 1..3 x actions x every sequence of match kinds with all match coordinates symbolic, and linked adapters for all four required/optional combinations, each compared with a reference written from the statement. Only 'Confirmed over all paths' with a refuted reachability twin counts.",
